@@ -193,35 +193,60 @@ func bindValue(s *Summary, c *bindCase) {
 			} else {
 				binding.DisableValidator()
 			}
-			var req *http.Request
-			if media == "query" {
-				req = mkReq("GET", "/b?"+v.values().Encode(), "", "")
-			} else {
-				body, ctype := bodyFor(media, v)
-				req = mkReq("POST", "/b", body, ctype)
-			}
-			var got bindT
-			err, pan := safeBind(func() error { return binding.Auto(req, &got) })
-			s.Compared++
-			what := fmt.Sprintf("value %+v encoded as %s, validator=%v: ", v, media, validator)
-			desc := func(w string) map[string]any {
-				return map[string]any{"kind": "bind", "aspect": "roundtrip", "what": what + w}
-			}
-			same := got.Age == v.Age && got.Name == v.Name && got.Ok == v.Ok && (len(got.Tags) == len(v.Tags)) &&
-				(len(v.Tags) == 0 || reflect.DeepEqual(got.Tags, v.Tags))
-			switch {
-			case pan != nil:
-				s.mismatch(desc(fmt.Sprintf("panicked: %v", pan)), c)
-			case validator && !c.Valid:
-				if err == nil {
-					s.mismatch(desc("an invalid value was bound successfully although a validator is enabled"), c)
+			// the entry points: Auto picks the binder; the binder of the type itself; the binder's raw-data entry point
+			for _, entry := range []string{"Auto", "Bind", "raw"} {
+				var req *http.Request
+				if media == "query" {
+					req = mkReq("GET", "/b?"+v.values().Encode(), "", "")
+				} else {
+					body, ctype := bodyFor(media, v)
+					req = mkReq("POST", "/b", body, ctype)
 				}
-			case err != nil:
-				s.mismatch(desc(fmt.Sprintf("bind failed: %v", err)), c)
-			case !same:
-				s.mismatch(desc(fmt.Sprintf("bound back as %+v", got)), c)
-			case validator && binding.Validate(&got) != nil:
-				s.mismatch(desc("successful bind but the struct does not pass validation"), c)
+				var got bindT
+				var err error
+				var pan any
+				switch {
+				case entry == "Auto":
+					err, pan = safeBind(func() error { return binding.Auto(req, &got) })
+				case media == "multipart/form-data":
+					continue
+				case entry == "Bind":
+					b := map[string]binding.Binder{"query": binding.Query, "application/x-www-form-urlencoded": binding.Form, "application/json": binding.JSON, "text/xml": binding.XML}[media]
+					err, pan = safeBind(func() error { return b.Bind(req, &got) })
+				default:
+					raw, _ := bodyFor(media, v)
+					switch media {
+					case "query":
+						err, pan = safeBind(func() error { return binding.Query.BindValues(v.values(), &got) })
+					case "application/x-www-form-urlencoded":
+						err, pan = safeBind(func() error { return binding.Form.BindValues(v.values(), &got) })
+					case "application/json":
+						err, pan = safeBind(func() error { return binding.JSON.BindBytes([]byte(raw), &got) })
+					default:
+						err, pan = safeBind(func() error { return binding.XML.BindBytes([]byte(raw), &got) })
+					}
+				}
+				s.Compared++
+				what := fmt.Sprintf("value %+v encoded as %s, entry point %s, validator=%v: ", v, media, entry, validator)
+				desc := func(w string) map[string]any {
+					return map[string]any{"kind": "bind", "aspect": "roundtrip", "what": what + w}
+				}
+				same := got.Age == v.Age && got.Name == v.Name && got.Ok == v.Ok && (len(got.Tags) == len(v.Tags)) &&
+					(len(v.Tags) == 0 || reflect.DeepEqual(got.Tags, v.Tags))
+				switch {
+				case pan != nil:
+					s.mismatch(desc(fmt.Sprintf("panicked: %v", pan)), c)
+				case validator && !c.Valid:
+					if err == nil {
+						s.mismatch(desc("an invalid value was bound successfully although a validator is enabled"), c)
+					}
+				case err != nil:
+					s.mismatch(desc(fmt.Sprintf("bind failed: %v", err)), c)
+				case !same:
+					s.mismatch(desc(fmt.Sprintf("bound back as %+v", got)), c)
+				case validator && binding.Validate(&got) != nil:
+					s.mismatch(desc("successful bind but the struct does not pass validation"), c)
+				}
 			}
 		}
 	}
